@@ -23,6 +23,8 @@ pub struct Arena {
     n: usize,
     place: Place,
     canary_seed: u64,
+    /// set once the bytes outside the slice were rewritten on purpose: what they must still be afterwards
+    outside: Option<Vec<u8>>,
 }
 
 impl Arena {
@@ -39,7 +41,7 @@ impl Arena {
         let layout = Layout::from_size_align(total.max(1), BASE_ALIGN).unwrap();
         let ptr = unsafe { alloc(layout) };
         assert!(!ptr.is_null());
-        let a = Arena { ptr, layout, start, n, place, canary_seed };
+        let a = Arena { ptr, layout, start, n, place, canary_seed, outside: None };
         // initialise everything (the harness never hands out uninitialised bytes)
         let all = unsafe { std::slice::from_raw_parts_mut(ptr, layout.size()) };
         let mut r = Rng::new(canary_seed);
@@ -58,7 +60,7 @@ impl Arena {
         let ptr = unsafe { alloc(layout) };
         assert!(!ptr.is_null());
         unsafe { std::ptr::write_bytes(ptr, 0xA5, layout.size()) };
-        Arena { ptr, layout, start, n, place, canary_seed: 0 }
+        Arena { ptr, layout, start, n, place, canary_seed: 0, outside: None }
     }
     pub fn len(&self) -> usize {
         self.n
@@ -75,12 +77,34 @@ impl Arena {
     pub fn fill_from(&mut self, src: &[u8]) {
         self.slice_mut().copy_from_slice(src);
     }
+    /// Overwrite every byte outside the slice with `byte` (the surroundings of a slice must not influence what the
+    /// library computes from the slice).
+    pub fn fill_outside(&mut self, byte: u8) {
+        let all = unsafe { std::slice::from_raw_parts_mut(self.ptr, self.layout.size()) };
+        for i in 0..all.len() {
+            if i < self.start || i >= self.start + self.n {
+                all[i] = byte;
+            }
+        }
+        self.outside = Some(all.to_vec());
+    }
+    /// Write `src` (as much as fits) right behind the slice; the other surrounding bytes keep their contents.
+    pub fn write_after(&mut self, src: &[u8]) {
+        let all = unsafe { std::slice::from_raw_parts_mut(self.ptr, self.layout.size()) };
+        let from = self.start + self.n;
+        let k = src.len().min(all.len() - from);
+        all[from..from + k].copy_from_slice(&src[..k]);
+        self.outside = Some(all.to_vec());
+    }
     /// Compare every byte outside the slice with the canary pattern.
     /// Returns the offsets (relative to the slice start, may be negative) that changed.
     pub fn check_canaries(&self) -> Vec<isize> {
         let all = unsafe { std::slice::from_raw_parts(self.ptr, self.layout.size()) };
         let mut expect = vec![0u8; all.len()];
-        Rng::new(self.canary_seed).fill(&mut expect);
+        match &self.outside {
+            Some(o) => expect.copy_from_slice(o),
+            None => Rng::new(self.canary_seed).fill(&mut expect),
+        }
         let mut bad = Vec::new();
         for i in 0..all.len() {
             if i >= self.start && i < self.start + self.n {
